@@ -65,26 +65,57 @@ def perr(sf):
 def gen_info_case(rng):
     u = next(_uid)
     names = [f"a{u}", f"b{u}"]
-    n = 3
-    meas = {m: dy(rng, nonzero=rng.random() < 0.8) for m in range(n) if rng.random() < 0.7}
+    n = 12   # indices with two digits: every place that prints or parses "q<i>" must cope
+    kind = rng.choice(["sym", "sym", "sym", "sym", "arr", "arr2", "cplx", "lit", "litarr"])
+    cval = (lambda: complex(dy(rng), dy(rng))) if kind == "cplx" else (lambda: dy(rng, nonzero=rng.random() < 0.8))
+    meas = {m: cval() for m in INFO_MODES if rng.random() < 0.7}
     free = {}
     for nm in names:
         st = rng.choice(["val", "val", "val", "default", "both", "none"])
         free[nm] = dict(val=dy(rng, nonzero=rng.random() < 0.8) if st in ("val", "both") else None,
                         default=dy(rng, nonzero=rng.random() < 0.8) if st in ("default", "both") else None)
-    kind = rng.choice(["sym", "sym", "sym", "arr", "lit", "litarr"])
     depth = rng.randint(1, 4)
-    mk = lambda: px.gen_expr(rng, depth, names, list(range(n)))
+    mk = lambda: px.gen_expr(rng, depth, names, INFO_MODES)
     if kind == "sym":
         p = {"one": mk()}
+    elif kind == "cplx":
+        p = {"one": px.gen_poly(rng, min(depth, 3), names, INFO_MODES)}
     elif kind == "arr":
         p = {"arr": [mk() if rng.random() < 0.7 else px.num(dy(rng)) for _ in range(rng.randint(2, 3))]}
+    elif kind == "arr2":
+        mk2 = lambda: px.gen_expr(rng, min(depth, 2), names, INFO_MODES)
+        p = {"arr2": [[mk2() if rng.random() < 0.5 else px.num(dy(rng)) for _ in range(2)] for _ in range(rng.randint(1, 2))]}
     elif kind == "lit":
         p = {"one": px.num(dy(rng))}
     else:
         p = {"arr": [px.num(dy(rng)) for _ in range(rng.randint(1, 3))]}
+    meas = {m: ([v.real, v.imag] if isinstance(v, complex) else v) for m, v in meas.items()}   # JSON-serialisable
     return dict(kind=kind, n=n, names=names, meas=meas, free=free, p=p, decoy=rng.random() < 0.5,
-                valform=rng.choice(["arr1", "arr1", "float", "arr11"]))
+                valform=rng.choice(["arr1", "arr1", "float", "arr11"]),
+                dtype="f32" if kind == "sym" and rng.random() < 0.15 else None)
+
+
+INFO_MODES = [0, 1, 2, 9, 10, 11]
+
+
+def meas_env(case):
+    return {int(k): (complex(*v) if isinstance(v, list) else v) for k, v in case["meas"].items()}
+
+
+def trees_of(p):
+    if "one" in p:
+        return [p["one"]]
+    if "arr" in p:
+        return list(p["arr"])
+    return [t for row in p["arr2"] for t in row]
+
+
+def scalars_of(pj):
+    if "one" in pj:
+        return [pj["one"]]
+    if "arr" in pj:
+        return list(pj["arr"])
+    return [t for row in pj["arr2"] for t in row]
 
 
 def effective_free(free):
@@ -97,8 +128,16 @@ def build_info(sf, case):
     fobj = {nm: prog.params(nm) for nm in case["names"]}
     q = prog.register
     lit = case["kind"] in ("lit", "litarr")
+    import sympy
     if "one" in case["p"]:
         obj = px.numval(case["p"]["one"]) if lit else px.to_sympy(case["p"]["one"], fobj, q)
+    elif "arr2" in case["p"]:
+        rows = [[px.numval(t) if "n" in t else px.to_sympy(t, fobj, q) for t in row] for row in case["p"]["arr2"]]
+        symb = any(isinstance(x, sympy.Basic) for row in rows for x in row)
+        obj = np.empty((len(rows), 2), dtype=object if symb else float)
+        for i, row in enumerate(rows):
+            for j, x in enumerate(row):
+                obj[i, j] = x
     else:
         items = [px.numval(t) if "n" in t else px.to_sympy(t, fobj, q) for t in case["p"]["arr"]]
         import sympy
@@ -109,9 +148,8 @@ def build_info(sf, case):
             for r in dq:
                 r.par  # noqa: B018  (another program touches the same subsystem indices)
         decoy.reg_refs[0].val = np.array([123.0])
-    for m, v in case["meas"].items():
-        m = int(m)
-        prog.reg_refs[m].val = {"arr1": np.array([v]), "float": float(v), "arr11": np.array([[v]])}[case["valform"]]
+    for m, v in meas_env(case).items():
+        prog.reg_refs[m].val = {"arr1": np.array([v]), "float": v, "arr11": np.array([[v]])}[case["valform"]]
     for nm, st in case["free"].items():
         fobj[nm].val = st["val"]
         fobj[nm].default = st["default"]
@@ -128,10 +166,21 @@ def info_one(ctx, sf, case, reqs, pend):
         ctx.tally("info_unsupported_sympy_node")
         return
     env_f = effective_free(case["free"])
-    env_m = {int(k): v for k, v in case["meas"].items()}
+    env_m = meas_env(case)
+    cplx = case["kind"] == "cplx"
+    f32 = case.get("dtype") == "f32"
+    rp = dict(kind="info", case=case)
     try:
-        val = par_evaluate(obj)
+        val = par_evaluate(obj, dtype=np.float32) if f32 else par_evaluate(obj)
         real = ("ok", val)
+        # history independence: evaluating another parameter in between and evaluating again gives the same
+        try:
+            par_evaluate(prog.reg_refs[0].par * 2 + 1)
+        except PE:
+            pass
+        again = par_evaluate(obj, dtype=np.float32) if f32 else par_evaluate(obj)
+        if not (np.shape(again) == np.shape(val) and np.all(np.asarray(again) == np.asarray(val))):
+            ctx.fail("evaluate-not-repeatable", f"par_evaluate gave {val}, then {again} for the same parameter", rp)
     except PE as e:
         real = ("err", "ParameterError")
     except Exception as e:  # any other exception class is not what the property allows
@@ -140,23 +189,42 @@ def info_one(ctx, sf, case, reqs, pend):
     foreign = [r.ind for r in deps if prog.reg_refs.get(r.ind) is not r]
     sym = bool(par_is_symbolic(obj))
     # --- oracle against the independent evaluator on the generated tree
-    trees = [case["p"]["one"]] if "one" in case["p"] else case["p"]["arr"]
-    walked = [s.get("sym") for s in ([pj["one"]] if "one" in pj else pj["arr"])]
+    trees = trees_of(case["p"])
+    walked = [s.get("sym") for s in scalars_of(pj)]
     ctx.oracle_cases += 1
     nontriv = any(px.atoms(t, "f") or px.atoms(t, "m") for t in trees)
-    ctx.count("info_" + case["kind"], case, nontriv, sample=case)
-    rp = dict(kind="info", case=case)
+    ctx.count("info_" + case["kind"] + ("_f32" if f32 else ""), case, nontriv, sample=case)
+    # par_str prints measured parameters as q<index> and free parameters as {name}: the printed atoms are the atoms
+    if "one" in pj and "sym" in pj["one"]:
+        import re
+        from strawberryfields.parameters import par_str
+        txt = par_str(obj)
+        want_m = {f"q{m}" for m in px.atoms(pj["one"]["sym"], "m")}
+        want_f = set(px.atoms(pj["one"]["sym"], "f"))
+        if set(re.findall(r"q\d+", txt)) != want_m or set(re.findall(r"\{(\w+)\}", txt)) != want_f:
+            ctx.fail("par-str-atoms", f"par_str gives {txt!r}, the parameter has measured atoms {sorted(want_m)} and "
+                     f"free atoms {sorted(want_f)}", rp)
+    # (only for sums and products of atoms: a constant subexpression such as cosh(2) is evaluated in float64)
+    if f32 and real[0] == "ok" and any(w is not None and (px.atoms(w, "f") or px.atoms(w, "m")) and
+                                       '"fn"' not in json.dumps(w) and '"pow"' not in json.dumps(w) for w in walked):
+        if np.asarray(real[1]).dtype != np.float32:
+            ctx.fail("dtype-ignored", f"par_evaluate(p, dtype=float32) returns {np.asarray(real[1]).dtype}", rp)
     if foreign:
         ctx.fail("regref-of-another-program", f"par_regref_deps returns RegRefs {foreign} that are not the "
                  f"RegRefs of the Program the parameter was built in (another Program touched q[i].par)", rp)
     try:
         ref = [px.fold(t, env_f, env_m) for t in trees]
-        ok_cond = all(px.well_conditioned(t, env_f, env_m) for t in trees)
+        ok_cond = all(px.well_conditioned(t, env_f, env_m, cplx=cplx) for t in trees)
         if ok_cond:
-            ref = ref[0] if "one" in case["p"] else np.array(ref, dtype=float)
+            ref = ref[0] if "one" in case["p"] else np.array(ref)
+            if "arr2" in case["p"]:
+                ref = ref.reshape(len(case["p"]["arr2"]), -1)
             if real[0] != "ok":
                 ctx.fail("evaluate-raises-though-bound", f"all atoms have values but par_evaluate gives {real}", rp)
-            elif not px.close(ref, np.asarray(real[1], dtype=float).reshape(np.shape(ref))):
+            elif np.shape(ref) != np.shape(real[1]):
+                ctx.fail("evaluate-wrong-shape", f"par_evaluate returns shape {np.shape(real[1])} for a parameter of "
+                         f"shape {np.shape(ref)}", rp)
+            elif not px.close(ref, np.asarray(real[1]), 2e-4 if f32 else 1e-9):
                 ctx.fail("evaluate-wrong-value", f"par_evaluate={real[1]} independent evaluation={ref}", rp)
         ctx.tally("info_bound")
     except px.Unbound as ub:
@@ -168,9 +236,12 @@ def info_one(ctx, sf, case, reqs, pend):
             ctx.fail("no-parameter-error", f"atom {ub.what} has no value but par_evaluate gives {real}", rp)
     # --- correspondence request
     if ctx.proof_ok:
-        reqs.append({"op": "param.info", "p": pj,
-                     "free": [[k, rat(v)] for k, v in env_f.items() if v is not None],
-                     "meas": [[m, rat(v)] for m, v in env_m.items()]})
+        rq = {"op": "param.info", "p": pj,
+              "free": [[k, px.val_tree(v)] for k, v in env_f.items() if v is not None],
+              "meas": [[m, px.val_tree(v)] for m, v in env_m.items()]}
+        if f32:
+            rq["dtype"] = "f32"
+        reqs.append(rq)
         pend.append(("info", case, dict(real=real, deps=sorted({r.ind for r in deps}), sym=sym)))
 
 
@@ -192,14 +263,14 @@ def info_compare(ctx, case, got, model):
             ctx.disagree("par_evaluate", case, "ok", str(real))
             return
         env_f = effective_free(case["free"])
-        env_m = {int(k): v for k, v in case["meas"].items()}
-        trees = [case["p"]["one"]] if "one" in case["p"] else case["p"]["arr"]
-        if not all(px.well_conditioned(t, env_f, env_m) for t in trees):
+        env_m = meas_env(case)
+        trees = trees_of(case["p"])
+        if not all(px.well_conditioned(t, env_f, env_m, cplx=case["kind"] == "cplx") for t in trees):
             ctx.tally("info_illconditioned_skipped")
             return
         mv = px.pval_fold(model["eval"]["ok"])
-        rv = np.asarray(real[1], dtype=float)
-        if not px.close(mv, rv.reshape(np.shape(mv))):
+        rv = np.asarray(real[1])
+        if np.shape(rv) != np.shape(mv) or not px.close(mv, rv, 2e-4 if case.get("dtype") else 1e-9):
             ctx.disagree("par_evaluate", case, np.asarray(mv).tolist(), rv.tolist())
 
 
@@ -326,16 +397,16 @@ TWO = {"CXgate", "CZgate", "S2gate", "MZgate", "sMZgate"}
 
 
 def consts(sf):
-    return {"#isq2h": 1 / np.sqrt(2 * sf.hbar), "#pi2": np.pi / 2, "#pi4": np.pi / 4, "#half": 0.5, "#one": 1.0,
-            "#mone": -1.0, "#zero": 0.0, "#two": 2.0}
+    """values of the holes the generated templates keep symbolic"""
+    return {"#pi": float(np.pi), "#hbar": float(sf.hbar)}
 
 
 def gen_decomp_case(rng):
     u = next(_uid)
     cls = rng.choice(list(TEMPLATES))
     names = [f"c{u}"]
-    n = 4
-    meas = {m: dy(rng, -8, 8) for m in range(n)}
+    n = 12
+    meas = {m: dy(rng, -8, 8) for m in INFO_MODES}
     free = {names[0]: dy(rng, -8, 8)}
     ps = []
     for _ in range(TEMPLATES[cls]):
@@ -343,13 +414,13 @@ def gen_decomp_case(rng):
             ps.append(px.num(dy(rng, -8, 8)))
         else:
             for _try in range(50):
-                t = px.gen_expr(rng, rng.randint(0, 2), names, list(range(n)), p_atom=0.5)
+                t = px.gen_expr(rng, rng.randint(0, 2), names, INFO_MODES, p_atom=0.5)
                 if px.well_conditioned(t, free, meas, 50) and abs(px.fold(t, free, meas)) > 1e-3:
                     break
             else:
                 t = {"m": 0}
             ps.append(t)
-    regs = rng.sample(range(n), 2 if cls in TWO else 1)
+    regs = rng.sample([0, 3, 10, 11, 5], 2 if cls in TWO else 1)
     return dict(cls=cls, names=names, n=n, meas=meas, free=free, ps=ps, regs=regs,
                 dagger=cls != "DisplacedSqueezed" and rng.random() < 0.4)
 
@@ -438,9 +509,11 @@ USE_OPS = ["Dgate", "Rgate", "Sgate", "Kgate"]
 
 def gen_history(rng, shots_variant=False):
     u = next(_uid)
-    n = rng.randint(2, 4)
+    n = rng.choice([2, 3, 4, 4, 11, 12])
+    modes_all = list(range(n)) if n <= 4 else [0, 1, n - 3, n - 2, n - 1]   # two-digit indices on large registers
     name = f"h{u}"
     free = {name: dy(rng)}
+    opt = (not shots_variant) and rng.random() < 0.3
     segs, measured = [], []
     for s in range(rng.randint(1, 4)):
         cmds = []
@@ -449,26 +522,53 @@ def gen_history(rng, shots_variant=False):
             if shots_variant and s == 0:
                 k = rng.choice(["measure", "prepare"])
             if k == "measure":
-                modes = rng.sample(range(n), rng.choice([1, 1, 2]) if n > 1 else 1)
+                modes = rng.sample(modes_all, rng.choice([1, 1, 2]) if n > 1 else 1)
                 cmds.append(dict(k="measure", modes=modes, vals=[dy(rng) for _ in modes],
                                  how="homodyne" if len(modes) == 1 and rng.random() < 0.7 else "fock"))
                 measured += [m for m in modes if m not in measured]
             elif k == "prepare":
-                cmds.append(dict(k="prepare", mode=rng.randrange(n), how=rng.choice(["Vacuum", "Coherent"])))
+                cmds.append(dict(k="prepare", mode=rng.choice(modes_all), how=rng.choice(["Vacuum", "Coherent"])))
             else:
-                pool = measured if (measured and rng.random() < 0.88) else list(range(n))
+                prev_use = [c for sg in segs + [cmds] for c in sg if c["k"] == "use"]
+                if prev_use and rng.random() < 0.3:
+                    # the same operation (same class, same expression) applied again, elsewhere
+                    c0 = rng.choice(prev_use)
+                    cmds.append(dict(c0, target=rng.choice(modes_all)))
+                    continue
+                pool = measured if (measured and rng.random() < 0.88) else modes_all
                 t = px.gen_expr(rng, rng.randint(0, 2), [name] if rng.random() < 0.3 else [], pool, p_atom=0.5)
-                if not (px.atoms(t, "m") or px.atoms(t, "f")):
+                if not px.atoms(t, "m") and (opt or not px.atoms(t, "f")):
                     t = {"add": [t, {"m": rng.choice(pool)}]}
                 cmds.append(dict(k="use", e=t, op=rng.choice(USE_OPS), dagger=rng.random() < 0.4,
-                                 target=rng.randrange(n)))
+                                 target=rng.choice(modes_all)))
+                if measured and rng.random() < 0.25:
+                    # a mode just read is measured again right behind (feed-forward must not slip behind it)
+                    rd = [m for m in px.atoms(t, "m") if m in measured]
+                    if rd:
+                        cmds.append(dict(k="measure", modes=[rd[0]], vals=[dy(rng)], how="homodyne"))
         segs.append(cmds)
     if shots_variant:
         for c in segs[0]:
             if c["k"] == "measure":
                 c["vals"] = [[dy(rng) for _ in range(3)] for _ in c["modes"]]  # per mode: 3 shots
+    # registers with holes: delete a mode nobody uses, create a mode late and act on it
+    flat = [c for sg in segs for c in sg]
+    used = {m for c in flat for m in (c.get("modes", []) + [c.get("mode"), c.get("target")] + (px.atoms(c["e"], "m") if "e" in c else []))}
+    idle = [m for m in range(n) if m not in used]
+    if idle and not shots_variant and rng.random() < 0.4:
+        sg = rng.choice(segs)
+        sg.insert(rng.randint(0, len(sg)), dict(k="del", mode=rng.choice(idle)))
+    if not shots_variant and rng.random() < 0.3:
+        si = rng.randrange(len(segs))
+        pos = rng.randint(0, len(segs[si]))
+        segs[si].insert(pos, dict(k="new"))
+        later = segs[si][pos + 1:] + [c for sg in segs[si + 1:] for c in sg]
+        for c in later:
+            if c["k"] == "use" and rng.random() < 0.5:
+                c["target"] = n          # the new mode has the next free index
     build = rng.choice(["before", "before", "lazy"])
-    return dict(n=n, free=free, segs=segs, build=build, shots=3 if shots_variant else 1,
+    return dict(n=n, free=free, segs=segs, build=build, shots=3 if shots_variant else 1, opt=opt,
+                share=rng.random() < 0.6,
                 run=rng.choice(["list", "successive"]) if build == "before" and not shots_variant else "successive",
                 decoy=rng.random() < 0.5, rerun=rng.choice([None, None, "fresh", "reset"]) if build == "before" else None,
                 premature=build == "before" and rng.random() < 0.35, suffix=rng.random() < 0.4)
@@ -476,9 +576,8 @@ def gen_history(rng, shots_variant=False):
 
 def history_reference(sf, h):
     """flat semantics: every use sees the latest outcome of its own modes; first missing atom aborts.
-    returns (trace of applied first arguments, error or None)"""
+    returns (trace of (target, applied first argument), error or None)"""
     latest, trace = {}, []
-    scale = {}
     for cmds in h["segs"]:
         for c in cmds:
             if c["k"] == "measure":
@@ -489,56 +588,94 @@ def history_reference(sf, h):
                     v = px.fold(c["e"], h["free"], latest)
                 except px.Unbound as ub:
                     return trace, f"{ub.kind}:{ub.what}"
-                v = np.asarray(v, dtype=float) * scale.get(c["op"], 1.0)
-                trace.append((-v if c["dagger"] else v).tolist())
+                v = np.asarray(v, dtype=float)
+                trace.append((c["target"], (-v if c["dagger"] else v).tolist()))
     return trace, None
 
 
-def _fill(sf, prog, cmds, free_name):
+def _fill(sf, prog, cmds, free_name, cache=None):
+    """append the commands to `prog`; with `cache` (a dict) equal expressions are ONE SymPy object and equal
+    operations ONE Operation instance within the program (users build `g = Dgate(q[0].par)` once)"""
     from strawberryfields import ops
     fobj = {free_name: prog.params(free_name)}
-    with prog.context as q:
+    with prog.context:
+        R = prog.reg_refs
         for c in cmds:
             if c["k"] == "measure":
-                regs = [q[m] for m in c["modes"]]
+                regs = [R[m] for m in c["modes"]]
                 if c["how"] == "homodyne":
                     ops.MeasureHomodyne(0.0) | regs[0]
                 else:
                     ops.MeasureFock() | regs
             elif c["k"] == "prepare":
-                (ops.Vacuum() if c["how"] == "Vacuum" else ops.Coherent(0.5, 0.25)) | q[c["mode"]]
+                (ops.Vacuum() if c["how"] == "Vacuum" else ops.Coherent(0.5, 0.25)) | R[c["mode"]]
+            elif c["k"] == "del":
+                ops.Del | R[c["mode"]]
+            elif c["k"] == "new":
+                ops.New(1)
             else:
-                e = px.to_sympy(c["e"], fobj, q)
-                o = getattr(ops, c["op"])(e, 0.0) if c["op"] in ("Dgate", "Sgate") else getattr(ops, c["op"])(e)
+                ek = json.dumps(c["e"], sort_keys=True)
+                if cache is not None and ("e", ek) in cache:
+                    e = cache[("e", ek)]
+                else:
+                    e = px.to_sympy(c["e"], fobj, R)
+                    if cache is not None:
+                        cache[("e", ek)] = e
+                ok = ("o", c["op"], ek)
+                if cache is not None and ok in cache:
+                    o = cache[ok]
+                else:
+                    o = getattr(ops, c["op"])(e, 0.0) if c["op"] in ("Dgate", "Sgate") else getattr(ops, c["op"])(e)
+                    if cache is not None:
+                        cache[ok] = o
                 if c["dagger"]:
                     o = o.H
-                o | q[c["target"]]
+                o | R[c["target"]]
 
 
 def _outcomes(h, segs=None):
+    """scripted outcomes, keyed by the measured modes"""
     out = []
     for cmds in (segs if segs is not None else h["segs"]):
         for c in cmds:
             if c["k"] == "measure":
                 v = np.array(c["vals"], dtype=float)
-                out.append(v.T if v.ndim == 2 else v.reshape(1, -1))
+                out.append((tuple(c["modes"]), v.T if v.ndim == 2 else v.reshape(1, -1)))
     return out
 
 
 def _trace(backend):
     key = {"displacement", "rotation", "squeeze", "kerr"}
-    return [c[2][0] for c in backend.calls if c[0] in key]
+    return [(c[1][0], c[2][0]) for c in backend.calls if c[0] in key]
+
+
+def _same_trace(h, tr, ref):
+    """exact order when nothing reorders; per target mode when the optimizer may reorder independent commands"""
+    if len(tr) != len(ref):
+        return False
+    if not h.get("opt"):
+        return all(a[0] == b[0] and px.close(a[1], b[1]) for a, b in zip(tr, ref))
+    for t in {a[0] for a in tr} | {b[0] for b in ref}:
+        x = [a[1] for a in tr if a[0] == t]
+        y = [b[1] for b in ref if b[0] == t]
+        if len(x) != len(y) or not all(px.close(a, b) for a, b in zip(x, y)):
+            return False
+    return True
+
+
+def _run_kw(h):
+    return dict(compile_options=dict(compiler="fock", optimize=True, warn_connected=False)) if h.get("opt") else {}
 
 
 def history_real(sf, h):
-    """returns (trace, error string or None, notes)"""
+    """returns (trace, error string or None, rerun result, suffix result)"""
     PE = perr(sf)
     fname = next(iter(h["free"]))
     progs = []
 
     def build(k):
         p = sf.Program(h["n"]) if k == 0 else sf.Program(progs[k - 1])
-        _fill(sf, p, h["segs"][k], fname)
+        _fill(sf, p, h["segs"][k], fname, {} if h.get("share") else None)
         progs.append(p)
     if h["build"] == "before":
         for k in range(len(h["segs"])):
@@ -553,20 +690,24 @@ def history_real(sf, h):
         # a first attempt to run the last segment alone (legitimately fails when it needs earlier outcomes)
         b0 = px.make_backend(_outcomes(h, h["segs"][-1:]) * 2)
         try:
-            sf.Engine(b0).run(progs[-1], args=dict(h["free"]))
+            sf.Engine(b0).run(progs[-1], args=dict(h["free"]), **_run_kw(h))
         except PE:
             pass
+        except RuntimeError as e:   # a successor whose register starts with deleted / created modes is refused
+            if "Register mismatch" not in str(e):
+                raise
 
     def attempt(eng, backend):
         try:
             if h["run"] == "list":
-                eng.run(progs, args=dict(h["free"]), shots=h["shots"]) if h["shots"] > 1 else eng.run(progs, args=dict(h["free"]))
+                kw = dict(shots=h["shots"]) if h["shots"] > 1 else {}
+                eng.run(progs, args=dict(h["free"]), **kw, **_run_kw(h))
             else:
                 for k in range(len(h["segs"])):
-                    if h["build"] == "lazy":
+                    if h["build"] == "lazy" and len(progs) <= k:
                         build(k)
                     kw = dict(shots=h["shots"]) if (h["shots"] > 1 and k == 0) else {}
-                    eng.run(progs[k], args=dict(h["free"]), **kw)
+                    eng.run(progs[k], args=dict(h["free"]), **kw, **_run_kw(h))
             return None
         except PE as e:
             return "ParameterError"
@@ -579,11 +720,13 @@ def history_real(sf, h):
         # the last segment alone on a fresh engine: its Program's RegRefs still hold the outcomes of the full run
         b3 = px.make_backend(_outcomes(h, h["segs"][-1:]))
         try:
-            sf.Engine(b3).run(progs[-1], args=dict(h["free"]))
-            e3 = None
+            sf.Engine(b3).run(progs[-1], args=dict(h["free"]), **_run_kw(h))
+            suffix = (_trace(b3), None)
         except PE:
-            e3 = "ParameterError"
-        suffix = (_trace(b3), e3)
+            suffix = (_trace(b3), "ParameterError")
+        except RuntimeError as e:
+            if "Register mismatch" not in str(e):
+                raise
     if h.get("rerun") and h["build"] == "before":
         # the same programs again: their RegRefs still hold the values of the first run
         if h["rerun"] == "fresh":
@@ -619,6 +762,8 @@ def history_model_req(sf, h, own0=None):
                 ms.append({"measure": c["modes"], "vals": [rat(v) for v in c["vals"]]})
             elif c["k"] == "prepare":
                 ms.append({"prepare": c["mode"]})
+            elif c["k"] in ("del", "new"):
+                ms.append({"prepare": c.get("mode", 0)})   # register bookkeeping does not touch RegRef.val
             else:
                 e = c["e"]
                 if c["op"] in sc:
@@ -674,7 +819,8 @@ def history_one(ctx, sf, h, reqs, pend):
             ctx.fail("measured-parameter-not-available" + label,
                      f"every parameter had been measured/bound, but the run raised {err}; applied so far {tr}", rp)
             return False
-        if conditioned and (len(tr) != len(ref_tr) or not all(px.close(a, b) for a, b in zip(tr, ref_tr))):
+        # (when the optimizer may reorder, the commands applied before an error are not determined)
+        if conditioned and not (h.get("opt") and ref_err) and not _same_trace(h, tr, ref_tr):
             ctx.fail("measured-parameter-wrong-value" + label,
                      f"operations were applied with {tr}, the latest outcomes of their own modes give {ref_tr}", rp)
             return False
@@ -704,9 +850,291 @@ def history_compare(ctx, h, got, model):
         ctx.disagree("engine.error", h, model["err"], got["err"])
         return
     if got["cond"]:
-        mt = [px.fold(t) for t in model["trace"]]
-        if len(mt) != len(got["trace"]) or not all(px.close(a, b) for a, b in zip(mt, got["trace"])):
-            ctx.disagree("engine.trace", h, mt, got["trace"])
+        mt = [float(px.fold(t)) for t in model["trace"]]
+        rt = [a[1] for a in got["trace"]]
+        if h.get("opt"):
+            # the optimizer may reorder independent commands; the model runs the written order
+            if got["err"]:
+                return
+            mt, rt = sorted(mt), sorted(float(x) for x in rt)
+        if len(mt) != len(rt) or not all(px.close(a, b) for a, b in zip(mt, rt)):
+            ctx.disagree("engine.trace", h, mt, rt)
+
+
+# =============================================================== B5: param.session (calls, failed calls, reset)
+
+def gen_session(rng):
+    h = gen_history(rng)
+    for sg in h["segs"]:
+        sg[:] = [c for c in sg if c["k"] not in ("del", "new")]
+        for c in sg:
+            if c.get("target", 0) >= h["n"]:
+                c["target"] = 0
+    h["segs"] = [sg for sg in h["segs"] if sg] or [[dict(k="prepare", mode=0, how="Vacuum")]]
+    h.update(opt=False, shots=1, rerun=None, premature=False, suffix=False)
+    if len(h["segs"]) >= 2 and rng.random() < 0.5:
+        # a segment that measures and THEN fails, followed by a segment that reads the mode measured there
+        i = rng.randrange(len(h["segs"]) - 1)
+        m = rng.randrange(h["n"])
+        never = [k for k in range(h["n"]) if k != m and not any(k in c.get("modes", []) for sg in h["segs"] for c in sg)]
+        if never:
+            if rng.random() < 0.6:
+                h["segs"][max(i - 1, 0)].insert(0, dict(k="measure", modes=[m], vals=[dy(rng)], how="homodyne"))
+            h["segs"][i].insert(0, dict(k="measure", modes=[m], vals=[dy(rng)], how="homodyne"))
+            h["segs"][i].append(dict(k="use", e={"m": never[0]}, op="Rgate", dagger=False, target=0))
+            h["segs"][i + 1].insert(0, dict(k="use", e={"mul": [px.num(2), {"m": m}]}, op="Dgate", dagger=False, target=0))
+    # how the segments are grouped into eng.run calls, and where eng.reset() is called
+    calls, k = [], 0
+    while k < len(h["segs"]):
+        g = rng.randint(1, 2) if h["build"] == "before" else 1
+        calls.append(list(range(k, min(k + g, len(h["segs"])))))
+        k += g
+    h["calls"] = calls
+    h["resets"] = [i for i in range(1, len(calls)) if rng.random() < 0.15]
+    return h
+
+
+def session_real(sf, h):
+    """every call is made, also after a ParameterError; returns [(event for the model, trace, err)]"""
+    PE = perr(sf)
+    fname = next(iter(h["free"]))
+    progs = []
+
+    def build(k):
+        p = sf.Program(h["n"]) if k == 0 else sf.Program(progs[k - 1])
+        _fill(sf, p, h["segs"][k], fname, {} if h.get("share") else None)
+        progs.append(p)
+    if h["build"] == "before":
+        for k in range(len(h["segs"])):
+            build(k)
+    backend = px.make_backend([])
+    eng = sf.Engine(backend)
+    out = []
+    for ci, call in enumerate(h["calls"]):
+        if ci in h["resets"]:
+            eng.reset()
+            out.append(({"reset": True}, None, None))
+        for k in call:
+            if len(progs) <= k:
+                build(k)
+        ps = [progs[k] for k in call]
+        segs = []
+        for p, k in zip(ps, call):
+            own = [[int(i), px.val_tree(float(np.squeeze(r.val)))] for i, r in p.reg_refs.items()
+                   if r.val is not None and np.size(r.val) == 1]
+            segs.append({"own": own, "cmds": history_model_req(sf, dict(h, segs=[h["segs"][k]]))["segs"][0]})
+        backend.calls.clear()
+        backend.outcomes = _outcomes(h, [h["segs"][k] for k in call])
+        try:
+            eng.run(ps if len(ps) > 1 else ps[0], args=dict(h["free"]))
+            err = None
+        except PE:
+            err = "ParameterError"
+        except RuntimeError as e:
+            if "Register mismatch" not in str(e):
+                raise
+            return out   # a refused call ends the comparison (register bookkeeping is not this model's subject)
+        out.append(({"run": segs}, [a[1] for a in _trace(backend)], err))
+    return out
+
+
+def session_one(ctx, sf, h, reqs, pend):
+    h = copy.deepcopy(h)
+    for cmds in h["segs"]:
+        for c in cmds:
+            if c["k"] == "use":
+                c["e"] = canon_tree(sf, c["e"], h["n"], list(h["free"]))
+        cmds[:] = [c for c in cmds if not (c["k"] == "use" and not px.atoms(c["e"], "m") and not px.atoms(c["e"], "f")
+                                           and px.fold(c["e"]) == 0)]
+    ctx.count("session_%dcalls" % len(h["calls"]), h, True)
+    try:
+        res = session_real(sf, h)
+    except Exception as e:
+        ctx.fail("session-crash", f"a session of eng.run calls raises {type(e).__name__}: {str(e)[:200]}",
+                 dict(kind="session", case=h))
+        return
+    conditioned = all(px.well_conditioned(c["e"], h["free"], {m: 1.0 for m in range(h["n"] + 1)}, 1e4)
+                      for cmds in h["segs"] for c in cmds if c["k"] == "use")
+    if ctx.proof_ok and res:
+        reqs.append({"op": "param.session", "free": [[k, rat(v)] for k, v in h["free"].items()],
+                     "events": [r[0] for r in res]})
+        pend.append(("session", h, dict(res=[(r[1], r[2]) for r in res if r[1] is not None], cond=conditioned)))
+        ctx.tally("session_with_failed_call" if any(r[2] for r in res) else "session_all_ok")
+
+
+def session_compare(ctx, h, got, model):
+    ctx.corr_cases += 1
+    if isinstance(model, dict) and "__error__" in model:
+        ctx.disagree("param.session", h, model, "driver error")
+        return
+    if len(model) != len(got["res"]):
+        ctx.disagree("session.calls", h, len(model), len(got["res"]))
+        return
+    for i, (m, (tr, err)) in enumerate(zip(model, got["res"])):
+        merr = None if m["err"] is None else "ParameterError"
+        if merr != err:
+            ctx.disagree("session.error", dict(h, call=i), m["err"], err)
+            return
+        if got["cond"]:
+            mt = [px.fold(t) for t in m["trace"]]
+            if len(mt) != len(tr) or not all(px.close(a, b) for a, b in zip(mt, tr)):
+                ctx.disagree("session.trace", dict(h, call=i), mt, tr)
+                return
+
+
+# =============================================================== B6: param.convert (par_convert)
+
+CONV_MODES = [0, 1, 2, 9, 10, 11, 12, 20, 23]
+
+
+def gen_convert_case(rng):
+    u = next(_uid)
+    names = [f"alpha{u}", f"w{u}"]
+    t = px.gen_expr(rng, rng.randint(1, 3), names + [f"q{m}" for m in rng.sample(CONV_MODES, 3)], [], p_atom=0.4)
+    meas = {m: dy(rng) for m in CONV_MODES}
+    free = {nm: dy(rng) for nm in names}
+    return dict(n=24, names=names, e=t, meas=meas, free=free, rrt=rng.random() < 0.3)
+
+
+def convert_one(ctx, sf, case, reqs, pend):
+    import sympy
+    import blackbird
+    from strawberryfields.parameters import par_convert, par_evaluate, par_regref_deps, MeasuredParameter, FreeParameter
+    rp = dict(kind="convert", case=case)
+    syms = {}
+
+    class Plain(dict):
+        def __missing__(self, k):
+            self[k] = sympy.Symbol(k)
+            return self[k]
+    bb = px.to_sympy(case["e"], Plain(), None)
+    if not isinstance(bb, sympy.Basic):
+        return
+    try:
+        walked_in = px.from_sympy(bb)
+    except px.Unsupported:
+        ctx.tally("convert_unsupported_sympy_node")
+        return
+    prog = sf.Program(case["n"])
+    ctx.count("convert", case, True, sample=case)
+    ctx.oracle_cases += 1
+    try:
+        arg = blackbird.RegRefTransform(bb) if case["rrt"] and all(str(x).startswith("q") for x in bb.free_symbols) \
+            and bb.free_symbols else bb
+        out = par_convert([arg, 0.375], prog)
+    except Exception as e:
+        ctx.fail("par-convert-raises", f"par_convert raises {type(e).__name__}: {str(e)[:160]} on {bb}", rp)
+        return
+    conv = out[0]
+    if out[1] != 0.375:
+        ctx.fail("par-convert-number", f"a numeric argument came back as {out[1]}", rp)
+    names_in = set(px.atoms(walked_in, "f"))
+    want_m = sorted({int(nm[1:]) for nm in names_in if nm[0] == "q"})
+    want_f = sorted(nm for nm in names_in if nm[0] != "q")
+    try:
+        walked_out = px.from_sympy(conv) if isinstance(conv, sympy.Basic) else px.num(conv)
+    except px.Unsupported:
+        ctx.tally("convert_unsupported_sympy_node")
+        return
+    got_m, got_f = sorted(set(px.atoms(walked_out, "m"))), sorted(set(px.atoms(walked_out, "f")))
+    own = isinstance(conv, sympy.Basic) and all(prog.reg_refs[r.ind] is r for r in par_regref_deps(conv)) and \
+        all(prog.free_params.get(a.name) is a for a in conv.atoms(FreeParameter))
+    if got_m != want_m or got_f != want_f or not own:
+        ctx.fail("par-convert-atoms", f"{bb} was converted to {conv}: measured subsystems {got_m} (expected {want_m}), "
+                 f"free parameters {got_f} (expected {want_f}), atoms belong to the program: {own}", rp)
+        return
+    env_f = dict(case["free"])
+    env_f.update({f"q{m}": v for m, v in case["meas"].items()})
+    if px.well_conditioned(walked_in, env_f, {}):
+        for m, v in case["meas"].items():
+            prog.reg_refs[int(m)].val = np.array([v])
+        prog.bind_params({k: v for k, v in case["free"].items() if k in prog.free_params})
+        try:
+            val = par_evaluate(conv)
+            if not px.close(px.fold(walked_in, env_f, {}), val):
+                ctx.fail("par-convert-value", f"{bb} converted to {conv}: value {val}, expected "
+                         f"{px.fold(walked_in, env_f, {})}", rp)
+        except Exception as e:
+            ctx.fail("par-convert-value", f"converted parameter does not evaluate: {type(e).__name__}: {e}", rp)
+    if ctx.proof_ok:
+        reqs.append({"op": "param.convert", "e": walked_in})
+        pend.append(("convert", case, dict(m=got_m, f=got_f, out=walked_out,
+                                          env_f=case["free"], env_m={int(k): v for k, v in case["meas"].items()})))
+
+
+def convert_compare(ctx, case, got, model):
+    ctx.corr_cases += 1
+    if model is None or (isinstance(model, dict) and "__error__" in model):
+        ctx.disagree("par_convert", case, model, "converted")
+        return
+    if sorted(set(px.atoms(model, "m"))) != got["m"] or sorted(set(px.atoms(model, "f"))) != got["f"]:
+        ctx.disagree("par_convert.atoms", case, [sorted(set(px.atoms(model, "m"))), sorted(set(px.atoms(model, "f")))],
+                     [got["m"], got["f"]])
+        return
+    if px.well_conditioned(model, got["env_f"], got["env_m"]) and \
+            not px.close(px.fold(model, got["env_f"], got["env_m"]), px.fold(got["out"], got["env_f"], got["env_m"])):
+        ctx.disagree("par_convert.value", case, px.fold(model, got["env_f"], got["env_m"]),
+                     px.fold(got["out"], got["env_f"], got["env_m"]))
+
+
+# =============================================================== O2: independence of the order programs are built in
+
+def cache_order_oracle(ctx, sf, rng):
+    """many programs with equal-looking expressions (q10**2, 2*q10, …) built in one process, in random order,
+    with SymPy's caches cleared or not in between and some programs deleted: every program keeps ITS RegRefs and
+    is applied with ITS outcomes"""
+    import gc
+    from sympy.core.cache import clear_cache
+    from sympy.core.symbol import Symbol
+    from strawberryfields import ops
+    from strawberryfields.parameters import par_regref_deps, par_funcs as pf
+    forms = {0: lambda a, b: a ** 2, 1: lambda a, b: 2 * a, 2: lambda a, b: pf.sin(a) + 1, 3: lambda a, b: a,
+             4: lambda a, b: a * b, 5: lambda a, b: a - b}
+    ref = {0: lambda a, b: a ** 2, 1: lambda a, b: 2 * a, 2: lambda a, b: np.sin(a) + 1, 3: lambda a, b: a,
+           4: lambda a, b: a * b, 5: lambda a, b: a - b}
+    script = []
+    live = []
+    ctx.oracle_cases += 1
+    ctx.count("cache_order", None, True)
+    try:
+        for it in range(rng.randint(6, 14)):
+            f = rng.randrange(6)
+            act = rng.choice(["none", "none", "clear", "symcache", "drop"])
+            script.append((f, act))
+            p = sf.Program(12)
+            with p.context as q:
+                ops.MeasureHomodyne(0.0) | q[10]
+                ops.MeasureHomodyne(0.0) | q[1]
+                ops.Dgate(forms[f](q[10].par, q[1].par), 0.0) | q[11]
+            live.append((p, f, dy(rng), dy(rng)))
+            if act == "clear":
+                clear_cache()
+            elif act == "symcache":
+                c = getattr(Symbol, "_Symbol__xnew_cached_", None)
+                if c is not None and hasattr(c, "cache_clear"):
+                    c.cache_clear()
+            elif act == "drop" and len(live) > 1:
+                del live[rng.randrange(len(live) - 1)]
+                gc.collect()
+        rng.shuffle(live)
+        for p, f, a, b in live:
+            e = p.circuit[2].op.p[0]
+            if any(p.reg_refs[r.ind] is not r for r in par_regref_deps(e)) or \
+                    any(p.reg_refs[r.ind] is not r for r in p.circuit[2].op.measurement_deps):
+                ctx.fail("cache-order-foreign-regref", f"after building programs {script} a parameter refers to the "
+                         f"RegRef of another program", dict(kind="cache_order", seed=None))
+                return
+            be = px.make_backend([((10,), [[a]]), ((1,), [[b]])])
+            sf.Engine(be).run(p)
+            got = [c[2][0] for c in be.calls if c[0] == "displacement"]
+            want = ref[f](a, b)
+            if not ((want == 0 and got == []) or (len(got) == 1 and px.close(got[0], want))):
+                ctx.fail("cache-order-wrong-value", f"after building programs {script}: applied {got}, own outcomes "
+                         f"give {want}", dict(kind="cache_order", seed=None))
+                return
+    except Exception as e:
+        ctx.fail("cache-order-raises", f"building/running equal-looking programs {script} raises "
+                 f"{type(e).__name__}: {str(e)[:200]}", dict(kind="cache_order", seed=None))
 
 
 # =============================================================== O1: symbolic vs substituted programs
@@ -719,7 +1147,8 @@ SQUEEZY = {"Sgate", "S2gate", "Squeezed", "Pgate", "CXgate", "CZgate"}
 
 def gen_prog(rng, allow_meas=True, nmax=4):
     u = next(_uid)
-    n = rng.randint(2, nmax)
+    n = rng.choice([2, 3, 4, 4, 11]) if nmax >= 4 else rng.randint(2, nmax)
+    modes_all = list(range(n)) if n <= 4 else [0, 1, 9, 10]     # two-digit subsystem indices
     names = [f"p{u}", f"r{u}"]
     free = {nm: dy(rng, -8, 8) for nm in names}
     ops, latest = [], {}
@@ -729,20 +1158,20 @@ def gen_prog(rng, allow_meas=True, nmax=4):
         if k == "meas" and not allow_meas:
             k = "g1"
         if k == "meas":
-            m = rng.randrange(n)
+            m = rng.choice(modes_all)
             v = dy(rng, -8, 8)
             ops.append(dict(cls="MeasureHomodyne", regs=[m], pars=[px.num(rng.choice([0.0, 0.0, 0.5]))], select=v))
             latest[m] = v
             continue
         if k == "fourier":
-            ops.append(dict(cls="Fouriergate", regs=[rng.randrange(n)], pars=[], dagger=rng.random() < 0.3))
+            ops.append(dict(cls="Fouriergate", regs=[rng.choice(modes_all)], pars=[], dagger=rng.random() < 0.3))
             continue
         if k == "loss":
-            ops.append(dict(cls="LossChannel", regs=[rng.randrange(n)], pars=[px.num(rng.choice([0.5, 0.75, 0.25]))]))
+            ops.append(dict(cls="LossChannel", regs=[rng.choice(modes_all)], pars=[px.num(rng.choice([0.5, 0.75, 0.25]))]))
             continue
         table = {"g1": G1, "g2": G2, "prep": PREP}[k]
         cls = rng.choice(list(table))
-        regs = rng.sample(range(n), 2) if k == "g2" else [rng.randrange(n)]
+        regs = rng.sample(modes_all, 2) if k == "g2" else [rng.choice(modes_all)]
         lim = 0.6 if cls in SQUEEZY else 1.5
         pars = []
         for j in range(table[cls]):
@@ -780,10 +1209,17 @@ def gen_prog(rng, allow_meas=True, nmax=4):
             if k != "prep":
                 twin["dagger"] = rng.random() < 0.3
             ops.append(twin)
+        rd = [m for t in pars for m in px.atoms(t, "m")]
+        if rd and rng.random() < 0.35:
+            # the mode whose outcome was just used is measured again (another outcome): the feed-forward operation
+            # must not be moved behind this measurement by any compiler / optimizer
+            v2 = dy(rng, -8, 8)
+            ops.append(dict(cls="MeasureHomodyne", regs=[rd[0]], pars=[px.num(0.0)], select=v2))
+            latest[rd[0]] = v2
     return dict(n=n, names=names, free=free, ops=ops)
 
 
-def build_prog(sf, spec, numeric, cut=None, jitter=0.0):
+def build_prog(sf, spec, numeric, cut=None, jitter=0.0, share=False):
     """returns the list of Programs (one, or two when `cut` splits the op list into segments)"""
     from strawberryfields import ops as O
     progs = []
@@ -792,7 +1228,9 @@ def build_prog(sf, spec, numeric, cut=None, jitter=0.0):
     for k, piece in enumerate(pieces):
         prog = sf.Program(spec["n"]) if k == 0 else sf.Program(progs[-1])
         fobj = {nm: prog.params(nm) for nm in spec["names"]} if not numeric else {}
-        with prog.context as q:
+        cache = {}
+        with prog.context:
+            q = prog.reg_refs
             for op in piece:
                 pars = []
                 for t in op["pars"]:
@@ -806,7 +1244,13 @@ def build_prog(sf, spec, numeric, cut=None, jitter=0.0):
                 if op.get("select") is not None:
                     kw["select"] = op["select"]
                     latest[op["regs"][0]] = op["select"]
-                o = getattr(O, op["cls"])(*pars, **kw)
+                key = json.dumps([op["cls"], op["pars"], kw, [latest.get(m) for t in op["pars"] for m in px.atoms(t, "m")]],
+                                 sort_keys=True)
+                if share and key in cache:
+                    o = cache[key]       # the user built this operation once and applies it again
+                else:
+                    o = getattr(O, op["cls"])(*pars, **kw)
+                    cache[key] = o
                 if op.get("dagger"):
                     o = o.H
                 regs = [q[i] for i in op["regs"]]
@@ -858,7 +1302,7 @@ def prog_one(ctx, sf, spec, cfg):
     except Exception as e:
         ctx.tally("prog_numeric_twin_rejected:" + type(e).__name__)
         return
-    sym_progs = build_prog(sf, spec, False, cfg.get("cut"))
+    sym_progs = build_prog(sf, spec, False, cfg.get("cut"), share=cfg.get("share", False))
     if cfg.get("decoy"):
         d = sf.Program(spec["n"])
         with d.context as dq:
@@ -943,7 +1387,8 @@ def gen_cfg(rng, spec, k):
     if compiler == "gaussian_unitary":
         opt = "no"
     return dict(backend=backend, compiler=compiler, optimize=opt, cut=cut,
-                prebind=compiler == "gaussian_unitary" or rng.random() < 0.15, decoy=rng.random() < 0.4, neg=k % 4 == 0)
+                prebind=compiler == "gaussian_unitary" or rng.random() < 0.15, decoy=rng.random() < 0.4, neg=k % 4 == 0,
+                share=rng.random() < 0.5)
 
 
 # =============================================================== driver
@@ -963,6 +1408,10 @@ def flush(ctx, sf, reqs, pend):
             decomp_compare(ctx, sf, case, got, model)
         elif kind == "history":
             history_compare(ctx, case, got, model)
+        elif kind == "session":
+            session_compare(ctx, case, got, model)
+        elif kind == "convert":
+            convert_compare(ctx, case, got, model)
     reqs.clear()
     pend.clear()
 
@@ -977,6 +1426,14 @@ def dispatch(ctx, sf, item, reqs, pend):
         history_one(ctx, sf, item["case"], reqs, pend)
     elif k == "prog":
         prog_one(ctx, sf, item["case"], item["cfg"])
+    elif k == "session":
+        session_one(ctx, sf, item["case"], reqs, pend)
+    elif k == "convert":
+        convert_one(ctx, sf, item["case"], reqs, pend)
+    elif k == "cache_order":
+        import random
+        for sd in range(20):
+            cache_order_oracle(ctx, sf, random.Random(sd))
     elif k == "free_isolation":
         free_isolation_oracle(ctx, sf, item["variant"])
     elif k == "free":
@@ -987,29 +1444,50 @@ def dispatch(ctx, sf, item, reqs, pend):
             pend.append(("free", item["case"], out))
 
 
+def safe(ctx, sf, item, reqs, pend):
+    """an exception escaping from the code under test (or from this harness) on a generated input is reported with
+    the input instead of crashing the run"""
+    try:
+        dispatch(ctx, sf, item, reqs, pend)
+    except Exception as e:
+        import traceback
+        tb = traceback.extract_tb(e.__traceback__)[-1]
+        ctx.fail("exception-" + item["kind"], f"{type(e).__name__}: {str(e)[:200]} at {Path(tb.filename).name}:{tb.lineno}",
+                 item)
+
+
 def run(ctx, sf):
     rng = ctx.rng
     reqs, pend = [], []
     for f in sorted(CORPUS.glob("*.json")):
-        dispatch(ctx, sf, json.loads(f.read_text()), reqs, pend)
+        safe(ctx, sf, json.loads(f.read_text()), reqs, pend)
     for v in ("create", "bind"):
         free_isolation_oracle(ctx, sf, v)
-    for _ in range(ctx.n(1200, 20000)):
-        info_one(ctx, sf, gen_info_case(rng), reqs, pend)
+    for _ in range(ctx.n(1100, 20000)):
+        safe(ctx, sf, dict(kind="info", case=gen_info_case(rng)), reqs, pend)
         if len(reqs) > 2500:
             flush(ctx, sf, reqs, pend)
-    for _ in range(ctx.n(160, 2500)):
-        dispatch(ctx, sf, dict(kind="free", case=gen_free_script(rng)), reqs, pend)
-    for _ in range(ctx.n(320, 5000)):
-        decomp_one(ctx, sf, gen_decomp_case(rng), reqs, pend)
-    for k in range(ctx.n(500, 9000)):
-        history_one(ctx, sf, gen_history(rng, shots_variant=(k % 12 == 11)), reqs, pend)
+    for _ in range(ctx.n(150, 2500)):
+        safe(ctx, sf, dict(kind="free", case=gen_free_script(rng)), reqs, pend)
+    for _ in range(ctx.n(300, 5000)):
+        safe(ctx, sf, dict(kind="decomp", case=gen_decomp_case(rng)), reqs, pend)
+    for _ in range(ctx.n(200, 3000)):
+        safe(ctx, sf, dict(kind="convert", case=gen_convert_case(rng)), reqs, pend)
+    for k in range(ctx.n(450, 9000)):
+        safe(ctx, sf, dict(kind="history", case=gen_history(rng, shots_variant=(k % 12 == 11))), reqs, pend)
+        if len(reqs) > 2500:
+            flush(ctx, sf, reqs, pend)
+    for k in range(ctx.n(200, 4000)):
+        safe(ctx, sf, dict(kind="session", case=gen_session(rng)), reqs, pend)
         if len(reqs) > 2500:
             flush(ctx, sf, reqs, pend)
     flush(ctx, sf, reqs, pend)
+    import random
+    for k in range(ctx.n(12, 200)):
+        cache_order_oracle(ctx, sf, random.Random(rng.getrandbits(32)))
     for k in range(ctx.n(230, 5000)):
         spec = gen_prog(rng, nmax=4)
-        prog_one(ctx, sf, spec, gen_cfg(rng, spec, k))
+        safe(ctx, sf, dict(kind="prog", case=spec, cfg=gen_cfg(rng, spec, k)), reqs, pend)
 
 
 def search(ctx, sf):
